@@ -298,8 +298,10 @@ func computeRenames(c *Ctx, g *goldenNames) *renameSet {
 	sort.Strings(extraT)
 	typeFeat := func(t gType) []string {
 		var out []string
-		for _, f := range t.Fields {
+		for i, f := range t.Fields {
 			out = append(out, "f:"+f.Name)
+			// (a renamed type whose fields were renamed as well still has their types, in order)
+			out = append(out, fmt.Sprintf("ft%d:%s", i, f.Type))
 		}
 		for _, m := range t.Methods {
 			out = append(out, "m:"+m)
